@@ -252,9 +252,17 @@ func (e *SpecEnv) deref(x ast.Expr) T {
 func (e *SpecEnv) binary(x *ast.BinaryExpr) T {
 	switch x.Op {
 	case token.LAND:
-		return And(e.wantBool(x.X), e.wantBool(x.Y))
+		a := e.wantBool(x.X)
+		if e.cur.pcHas(Not(a)) {
+			return Bool(false)
+		}
+		return And(a, e.wantBool(x.Y))
 	case token.LOR:
-		return Or(e.wantBool(x.X), e.wantBool(x.Y))
+		a := e.wantBool(x.X)
+		if e.cur.pcHas(a) {
+			return Bool(true)
+		}
+		return Or(a, e.wantBool(x.Y))
 	case token.EQL, token.NEQ:
 		a, b := e.tr(x.X), e.tr(x.Y)
 		r := e.equal(a, b, x)
@@ -447,11 +455,22 @@ func (e *SpecEnv) call(x *ast.CallExpr) T {
 		// entry values of reassigned parameters: handled by caller providing vars
 		return c.tr(x.Args[0])
 	case "implies":
-		return Implies(e.wantBool(x.Args[0]), e.wantBool(x.Args[1]))
+		a := e.wantBool(x.Args[0])
+		if e.cur.pcHas(Not(a)) {
+			return Bool(true) // antecedent is refuted on this path: the consequent need not even be well-defined here
+		}
+		return Implies(a, e.wantBool(x.Args[1]))
 	case "iff":
 		return Eq(e.wantBool(x.Args[0]), e.wantBool(x.Args[1]))
 	case "ite":
-		return Ite(e.wantBool(x.Args[0]), e.tr(x.Args[1]), e.tr(x.Args[2]))
+		c := e.wantBool(x.Args[0])
+		if e.cur.pcHas(c) {
+			return e.tr(x.Args[1])
+		}
+		if e.cur.pcHas(Not(c)) {
+			return e.tr(x.Args[2])
+		}
+		return Ite(c, e.tr(x.Args[1]), e.tr(x.Args[2]))
 	case "val":
 		a := e.tr(x.Args[0])
 		switch a.Sort {
